@@ -49,6 +49,11 @@ func (w *dnsWorld) classifyForeignQ(name int, qtype uint16, a *dnsAns, fname int
 		// the copy travelled on a transport that never carried a query for the victim's question
 		if cls == "unattributed" && crossed {
 			cls = "reply-crossed-connections"
+			if a != nil && a.forQuery != nil && a.name == name && a.qtype != qtype && a.forQuery.name == a.name && a.forQuery.qtype == a.qtype {
+				// a regular answer to a question for the same name and another type: the
+				// two questions were taken for one (cache key / coalescing key)
+				cls = "answer-of-another-type-of-the-same-name"
+			}
 		}
 	}()
 	for _, sr := range w.sent {
